@@ -49,6 +49,10 @@ CHECKS = {
    technique="exhaustive enumeration (E1): every calendar day 1900-2100 for the date / unix-time / date-number conversions, every day 1970-2100 x 3 times of day for the 8 time buckets, every quarter-hour lead time 0-72 h, and every small subset of 16 boundary instants as a dataset on all 15 axes (API and CLI), against an integer-arithmetic calendar and the reference dataset model",
    text="Conversions: all 73414 days, mutual inverses and agreement with civil-from-days arithmetic that does not use datetime. Buckets: all 47847 days x {00:00:00, 06:00, 23:59:59} for year, month, Monday-based week, day, time of day, day of year, day of month, month of year; lead-time day for 289 lead times. Datasets: all 696 (thorough 2516) subsets of size <=3 (4) of boundary instants (year ends, leap days in 2000/2016, Feb 28 -> Mar 1 in 2001 and 2100, Sunday 23 h / Monday 0 h, 1970-01-01, 2038) with lead times 0/23/24 h, 2 stations, 2 inputs in different orders, partly missing: axis values, every slice's cases, the union of slices = pooled cases, and through -x <axis> -type csv the counts, count-weighted mean and labels.",
    note="trusts: mc/ref/calendar.py; either reading of 'day of year' accepted; time-like labels' text format is C12's subject"),
+ "C12": dict(level="exploration", design="5/C12",
+   technique="bounded exhaustive enumeration (E1): full product of inputs x metric x axis x {csv,text} x -f/-leg/-acc through the real driver; the printed table is parsed back and every header field, row label and number is compared with reference scores rounded to the documented precision",
+   text="N in {1,2,3} inputs x 10 metrics (thorough 19) x 16 data dimensions plus threshold / obs / fcst axes with -r (-q) lists in non-ascending order x {csv,text} x -f x -leg x -acc: 8448 command lines (quick). Checked: column count, one column per input in command-line order named by file or legend, one row per slice in axis order (as given for thresholds), leading fields (date integer groups, lead time, id/lat/lon/elev, threshold), every number against the reference dataset model + reference metric definition to 6 (csv) / 4 (text) significant digits and not printed with more digits, -f file == screen output and nothing on screen, -acc = running sums with missing scores counted as 0. Also the obsfcst table (obs column, forecast and quantile columns per input, 2 aggregators) and that the 26 diagrams without a table form refuse -type text|csv with an error.",
+   note="trusts: mc/ref/scores.py and the reference metric modules; formatted dates compared by integer groups; fss table only via C19"),
 }
 
 def main():
